@@ -401,6 +401,7 @@ func run(t *rapid.T, r *rec.Recorder) {
 	acts["ackUnreceived"] = m.Wrap(c.ackUnreceived)
 	acts["limit"] = m.Wrap(m.ActLimit)
 	acts["fundMoody"] = m.Wrap(m.ActFundMoody)
+	acts["moveRelayerAddress"] = m.Wrap(m.ActMoveRelayerAddress)
 	acts[""] = func(t *rapid.T) { m.T = t; c.check() }
 	t.Repeat(acts)
 	var shape []string
